@@ -443,10 +443,8 @@ theorem new_version_fetched (s : State) (h k t : Nat) (locals : List (Nat × Nat
 
 /-- One scheduling round: a queued version whose holder has not timed out is scheduled by the next
 `next_keys_to_fetch` whenever the fetches in flight plus the queued entries of *other* versions that are at least as
-close fit below the limit (`hroom`). The round-based `progress` of DESIGN §4 (a re-advertised version is in flight
-within `⌈(queued versions at least as close)/MAX_PARALLEL_FETCH⌉ + 1` rounds when every scheduled fetch is acknowledged
-before the next round) follows from this lemma by a ranking induction over rounds that is not carried out here:
-each acknowledged round removes `MAX_PARALLEL_FETCH` closer versions until `hroom` holds. -/
+close fit below the limit (`hroom`). This is the one-call special case of the ranking step `ahead_decreases` below;
+the round-based statement is `progress`. -/
 theorem progress_partial (s : State) (choice : List Entry) (e : Entry)
     (hok : (nextKeys dist s choice).2.illegal = false)
     (he : e ∈ s.tbf)
@@ -528,6 +526,373 @@ theorem multi_key_takeup (s : State) (h : Nat) (incoming locals : List (Nat × N
     show hasKT (nextKeys dist (addCore dist s h incoming locals).1 X).1.ogf p.1 p.2 = true
     rw [nextKeys_ogf_eq, hasKT_append, ← hk, ← ht, h1, Bool.or_true]
 
+/-! ## progress (round-based liveness)
+
+Every acknowledgement (`notify_about_new_put`, `notify_fetch_early_completed`) itself calls
+`next_keys_to_fetch`. Under the fairness hypothesis of DESIGN §4 C08 — every scheduled fetch, also those scheduled by
+the acknowledgements, is acknowledged before the next round — the in-flight set is empty at the end of a round, and
+then `closest_first` leaves no queued entry behind: the advertised version is scheduled in the *first* round, which is
+stronger than the `⌈closer / MAX_PARALLEL_FETCH⌉ + 1` rounds of the design (`progress` states that bound,
+`progress_first_round` the tight one). The ranking function of the design survives as `ahead_decreases`: per call,
+as long as the version is not in flight, the limit is reached and the number of queued entries ahead of it drops by
+the size of the returned batch. -/
+
+theorem admits_of {s : State} {locals : List (Nat × Nat)} {h k t : Nat}
+    (hheld : locals.lookup k ≠ some t) (hq : hasKTH s.tbf k t h = false)
+    (hfar : ∀ f, s.farthest = some f → dist k ≤ f) : admits dist s locals h (k, t) = true := by
+  simp only [admits, skipHeld, skip_same, if_true, Bool.and_eq_true, Bool.not_eq_true',
+    beq_eq_false_iff_ne, ne_eq]
+  refine ⟨⟨hheld, hq⟩, ?_⟩
+  cases hf : s.farthest with
+  | none => rfl
+  | some f =>
+    have := hfar f hf
+    simp only [Bool.not_eq_true']
+    cases hb : beyondFarthest (dist k) f with
+    | false => rfl
+    | true => have := (beyond_iff _ _).1 hb; omega
+
+/-- The advertisement that opens a round: a listed version that is not held with that type, in range, within the
+farthest distance and not in flight is queued for the advertising holder or scheduled by that very call. -/
+theorem advert_step {s : State} {h k t : Nat} {L loc : List (Nat × Nat)} {c : List Entry}
+    (hin : (k, t) ∈ L) (hkeeps : Keeps dist k t h s (.add h L loc c))
+    (hfar : ∀ f, s.farthest = some f → dist k ≤ f) (hrange : ∀ r, s.range = some r → dist k ≤ r)
+    (hfly : hasKT s.ogf k t = false) :
+    hasKTH (step dist s (.add h L loc c)).1.tbf k t h = true ∨
+    hasKT (step dist s (.add h L loc c)).2.ret k t = true := by
+  cases hq : hasKTH s.tbf k t h with
+  | true => exact keeps_step dist hq hkeeps
+  | false =>
+    obtain ⟨_, hresp, hheld, _⟩ := hkeeps
+    have hadm := admits_of dist hheld hq hfar
+    have hmem : (k, t) ∈ L.filter (admits dist s loc h) := List.mem_filter.2 ⟨hin, hadm⟩
+    have hog : hasKT (ogf1 s loc) k t = false := by
+      rw [hasKT_false_iff] at hfly ⊢
+      intro e he
+      exact hfly e (List.mem_filter.1 he).1
+    show hasKTH (addKeys dist s h L loc c).1.tbf k t h = true ∨ hasKT (addKeys dist s h L loc c).2.ret k t = true
+    change h ∉ (addKeys dist s h L loc c).2.failed at hresp
+    rcases addCore_cases dist s h L loc with ⟨p, hp, hk, _⟩ | ⟨p, hp, _, hc⟩ | ⟨hlen, _⟩
+    · have : (k, t) = p := by
+        have := hmem; rw [show L.filter (admits dist s loc h) = [p] from hp] at this; simpa using this
+      subst this
+      rw [hog] at hk; cases hk
+    · have : (k, t) = p := by
+        have := hmem; rw [show L.filter (admits dist s loc h) = [p] from hp] at this; simpa using this
+      subst this
+      right
+      obtain ⟨X, ill, hx⟩ := addKeys_shape dist s h L loc c
+      rw [hx, hc]
+      show hasKT ([fastEntry s h (k, t)] ++ _) k t = true
+      rw [hasKT_append]
+      simp [hasKT, sameKT, fastEntry]
+    · rcases multi_key_takeup dist s h L loc c (k, t) hmem hlen hrange hresp with h1 | h1
+      · exact Or.inl h1
+      · right
+        have hex := inflight_exact dist s (.add h L loc c)
+        change (addKeys dist s h L loc c).1.ogf = _ ++ (addKeys dist s h L loc c).2.ret at hex
+        rw [hex, hasKT_append] at h1
+        have h2 : hasKT (s.ogf.filter (stays dist s (.add h L loc c))) k t = false := by
+          rw [hasKT_false_iff] at hfly ⊢
+          intro e he
+          exact hfly e (List.mem_filter.1 he).1
+        rw [h2, Bool.false_or] at h1
+        exact h1
+
+/-- **Fairness hypotheses of one round** for the version `(k, t)` advertised by holder `h`, from state `s`:
+the round is an advertisement by `h` listing the version, followed by any operations (acknowledgements, other
+holders' lists, timer advances, range / fullness updates), such that
+* the version is not held with that type, is in range, within the farthest distance and not already in flight;
+* until the version is scheduled, every choice witness is legal, `h` is not reported as timed out, and no operation
+  takes the queued entry away other than by scheduling it (`FairTrace` / `Keeps`);
+* the last operation is a scheduling call with a legal choice, and afterwards nothing is in flight:
+  every scheduled fetch — also those scheduled by the acknowledgements themselves — has been acknowledged. -/
+structure FairRound (k t h : Nat) (s : State) (round : List Op) : Prop where
+  advert : ∃ L loc c acks, round = .add h L loc c :: acks ∧ (k, t) ∈ L
+  inRange : ∀ r, s.range = some r → dist k ≤ r
+  withinFarthest : ∀ f, s.farthest = some f → dist k ≤ f
+  notInFlight : hasKT s.ogf k t = false
+  fair : FairTrace dist k t h s round
+  lastLegal : ∃ pre op, round = pre ++ [op] ∧ op.schedules = true ∧
+    (step dist (run dist s pre) op).2.illegal = false
+  acked : (run dist s round).ogf = []
+
+/-- **progress, one round.** In a fair round the advertised version is returned by some call of that round — however
+many closer versions are queued: every acknowledgement calls `next_keys_to_fetch`, so the queue keeps draining
+closest-first until nothing eligible is left. -/
+theorem progress_round (k t h : Nat) (s : State) (round : List Op) (hr : FairRound dist k t h s round) :
+    ∃ o ∈ outs dist s round, hasKT o.ret k t = true := by
+  obtain ⟨L, loc, c, acks, rfl, hin⟩ := hr.advert
+  obtain ⟨hkeeps, hrest⟩ := hr.fair
+  rcases advert_step dist hin hkeeps hr.withinFarthest hr.inRange hr.notInFlight with hq | hsched
+  · rcases hrest with hsched | hfair
+    · exact ⟨_, List.mem_cons_self, hsched⟩
+    · obtain ⟨pre, op, hsplit, hs, hok⟩ := hr.lastLegal
+      have hacked := hr.acked
+      cases pre with
+      | nil =>
+        -- the advertisement is the only operation of the round
+        simp only [List.nil_append, List.cons.injEq] at hsplit
+        obtain ⟨rfl, rfl⟩ := hsplit
+        exfalso
+        change (step dist s (.add h L loc c)).2.illegal = false at hok
+        obtain ⟨e, he, _, _, _⟩ := (hasKTH_true_iff _ _ _ _).1 hq
+        have h0 : (step dist s (.add h L loc c)).1.ogf = [] := hacked
+        have := step_closest dist hs hok e he (by rw [h0]; rfl)
+        rw [h0] at this
+        exact absurd this (by decide)
+      | cons p0 pre' =>
+        simp only [List.cons_append, List.cons.injEq] at hsplit
+        obtain ⟨rfl, rfl⟩ := hsplit
+        obtain ⟨o, ho, hso⟩ := progress_trace dist hq hfair hs hok hacked
+        exact ⟨o, List.mem_cons_of_mem _ ho, hso⟩
+  · exact ⟨_, List.mem_cons_self, hsched⟩
+
+/-- the state at the start of round `i` -/
+def startOf (s : State) (rounds : List (List Op)) (i : Nat) : State := run dist s (rounds.take i).flatten
+
+/-- some call of the round returns the version -/
+def ScheduledIn (k t : Nat) (s : State) (round : List Op) : Prop :=
+  ∃ o ∈ outs dist s round, hasKT o.ret k t = true
+
+/-- **Fairness of a round-based execution**: there is at least one round, and every round is a `FairRound` (from
+the state the previous rounds lead to) unless the version has already been scheduled in an earlier round. -/
+structure FairRounds (k t h : Nat) (s : State) (rounds : List (List Op)) : Prop where
+  nonempty : rounds ≠ []
+  fair : ∀ i (hi : i < rounds.length),
+    (∃ j, j < i ∧ ∃ hj : j < rounds.length, ScheduledIn dist k t (startOf dist s rounds j) rounds[j]) ∨
+    FairRound dist k t h (startOf dist s rounds i) rounds[i]
+
+/-- **progress.** In a fair round-based execution the version is scheduled in the very first round. -/
+theorem progress_first_round (k t h : Nat) (s : State) (rounds : List (List Op))
+    (hr : FairRounds dist k t h s rounds) :
+    ∃ h0 : 0 < rounds.length, ScheduledIn dist k t s rounds[0] := by
+  have h0 : 0 < rounds.length := List.length_pos_iff.2 hr.nonempty
+  refine ⟨h0, ?_⟩
+  rcases hr.fair 0 h0 with ⟨j, hj, _⟩ | hf
+  · exact absurd hj (Nat.not_lt_zero _)
+  · exact progress_round dist k t h _ _ hf
+
+/-- **progress with the bound of DESIGN §4 C08**: for any count `closer` of queued / in-range unheld keys closer than
+`k`, the version is scheduled within `⌈closer / MAX_PARALLEL_FETCH⌉ + 1` rounds. (The bound is not tight: under
+the fairness hypothesis "every scheduled fetch is acknowledged before the next round" the first round suffices,
+see `progress_first_round`.) -/
+theorem progress (k t h : Nat) (s : State) (rounds : List (List Op))
+    (hr : FairRounds dist k t h s rounds) (closer : Nat) :
+    ∃ i, i < (closer + maxParallelFetch - 1) / maxParallelFetch + 1 ∧
+      ∃ hi : i < rounds.length, ScheduledIn dist k t (startOf dist s rounds i) rounds[i] := by
+  obtain ⟨h0, hs⟩ := progress_first_round dist k t h s rounds hr
+  exact ⟨0, Nat.succ_pos _, h0, hs⟩
+
+/-! ### the ranking function behind `progress` -/
+
+/-- queued entries of *other* versions that are at least as close as key `k` -/
+def aheadP (k t : Nat) (x : Entry) : Bool := decide (dist x.key ≤ dist k) && !(x.key == k && x.ty == t)
+def ahead (s : State) (k t : Nat) : Nat := (s.tbf.filter (aheadP dist k t)).length
+
+theorem ret_not_queued {s : State} {c : List Entry} {r x : Entry}
+    (hr : r ∈ (nextKeys dist s c).2.ret) (hx : x ∈ (nextKeys dist s c).1.tbf) : kth x ≠ kth r := by
+  rcases nextKeys_cases dist s c with ⟨_, h⟩ | ⟨_, _, h⟩ | ⟨_, _, h⟩
+  · rw [h] at hr; cases hr
+  · rw [h] at hr; cases hr
+  · rw [h] at hr hx
+    obtain ⟨y, hy, hk, ht, hh, _⟩ := mem_sched hr
+    have hx2 := (List.mem_filter.1 hx).2
+    intro heq
+    simp only [kth, Prod.mk.injEq] at heq
+    have : hasKTH c x.key x.ty x.holder = true :=
+      (hasKTH_true_iff _ _ _ _).2 ⟨y, hy, by rw [heq.1, hk], by rw [heq.2.1, ht], by rw [heq.2.2, hh]⟩
+    rw [this] at hx2; cases hx2
+
+/-- **Ranking step.** If, after a `next_keys_to_fetch` with a legal choice, the version `(k, t)` queued for a
+responsive holder is still not in flight, then the limit is reached and the number of queued entries ahead of it has
+dropped by the size of the returned batch. -/
+theorem ahead_decreases (s : State) (hi : Inv dist s) (choice : List Entry) (k t h : Nat)
+    (hok : (nextKeys dist s choice).2.illegal = false)
+    (hq : hasKTH s.tbf k t h = true) (hresp : h ∉ (nextKeys dist s choice).2.failed)
+    (hnot : hasKT (nextKeys dist s choice).1.ogf k t = false) :
+    maxParallelFetch ≤ (nextKeys dist s choice).1.ogf.length ∧
+    ahead dist (nextKeys dist s choice).1 k t + (nextKeys dist s choice).2.ret.length ≤ ahead dist s k t := by
+  have hog := nextKeys_ogf_eq dist s choice
+  have hnr : hasKT (nextKeys dist s choice).2.ret k t = false := by
+    rw [hog, hasKT_append] at hnot
+    exact (Bool.or_eq_false_iff.1 hnot).2
+  have hq' : hasKTH (nextKeys dist s choice).1.tbf k t h = true := by
+    rcases nextKeys_keepsV dist (c := choice) hq hresp with h1 | h1
+    · exact h1
+    · rw [hnr] at h1; cases h1
+  obtain ⟨e, he, hek, het, _⟩ := (hasKTH_true_iff _ _ _ _).1 hq'
+  obtain ⟨hmax, hclose⟩ := (closest_first dist s choice hok).2 e he (by rw [hek, het]; exact hnot)
+  refine ⟨hmax, ?_⟩
+  have htsub : (nextKeys dist s choice).1.tbf.Sublist s.tbf := (nextKeys_tbf_sub dist s choice).trans (pTbf_sub s)
+  -- the entries still ahead and the returned ones have pairwise distinct (key, type, holder) …
+  have hnd : (((nextKeys dist s choice).1.tbf.filter (aheadP dist k t)).map kth ++
+      (nextKeys dist s choice).2.ret.map kth).Nodup := by
+    rw [List.nodup_append]
+    refine ⟨nodup_map_sub (List.filter_sublist.trans htsub) hi.tbfNodup, ?_, ?_⟩
+    · have h1 := nextKeys_ret_nodup dist s choice
+      have h2 : ((nextKeys dist s choice).2.ret.map kth).map (fun p => (p.1, p.2.1)) =
+          (nextKeys dist s choice).2.ret.map kt := by
+        simp [List.map_map, Function.comp_def, kth, kt]
+      rw [← h2] at h1
+      exact List.Pairwise.of_map (fun p : Nat × Nat × Nat => (p.1, p.2.1)) (fun a b hne hab => hne (by rw [hab])) h1
+    · intro a ha b hb hab
+      subst hab
+      obtain ⟨x, hx, rfl⟩ := List.mem_map.1 ha
+      obtain ⟨r, hr, hrx⟩ := List.mem_map.1 hb
+      exact ret_not_queued dist hr (List.mem_filter.1 hx).1 hrx.symm
+  -- … and all of them are entries of the old queue that were ahead
+  have hsub : ((nextKeys dist s choice).1.tbf.filter (aheadP dist k t)).map kth ++
+      (nextKeys dist s choice).2.ret.map kth ⊆ (s.tbf.filter (aheadP dist k t)).map kth := by
+    intro a ha
+    rcases List.mem_append.1 ha with ha | ha
+    · obtain ⟨x, hx, rfl⟩ := List.mem_map.1 ha
+      exact List.mem_map.2 ⟨x, List.mem_filter.2 ⟨htsub.subset (List.mem_filter.1 hx).1, (List.mem_filter.1 hx).2⟩, rfl⟩
+    · obtain ⟨r, hr, rfl⟩ := List.mem_map.1 ha
+      obtain ⟨⟨y, hy, hk, ht, hh⟩, _, _⟩ := nextKeys_ret_origin dist hr
+      refine List.mem_map.2 ⟨y, List.mem_filter.2 ⟨(pTbf_sub s).subset hy, ?_⟩, by simp [kth, hk, ht, hh]⟩
+      have h1 : dist y.key ≤ dist k := by rw [hk, ← hek]; exact hclose r hr
+      have h2 : ¬(r.key = k ∧ r.ty = t) := (hasKT_false_iff _ _ _).1 hnr r hr
+      simp only [aheadP, Bool.and_eq_true, decide_eq_true_eq, Bool.not_eq_true', Bool.and_eq_false_imp,
+        beq_iff_eq, beq_eq_false_iff_ne]
+      exact ⟨h1, fun hh1 => by rw [hk] at hh1; rw [ht]; exact fun h3 => h2 ⟨hh1, h3⟩⟩
+  have hlen := hnd.length_le_of_subset hsub
+  simp only [List.length_append, List.length_map] at hlen
+  exact hlen
+
+/-! ### non-vacuity of the fairness hypotheses: an executable check and a concrete three-round run -/
+
+def keepsB (k t h : Nat) (s : State) (op : Op) : Bool :=
+  !(step dist s op).2.illegal && !(step dist s op).2.failed.contains h &&
+  (match op with
+   | .add _ _ locals _ => !(locals.lookup k == some t) &&
+       s.tbf.all (fun x => !(x.key == k && x.ty == t && x.holder == h) || decide (s.now < x.deadline))
+   | .put k' t' _ => !(k == k' && t == t')
+   | .early k' t' _ => !(k == k' && t == t')
+   | .full (some k') => decide (dist k ≤ dist k')
+   | _ => true)
+
+theorem keepsB_sound {k t h : Nat} {s : State} {op : Op} (hb : keepsB dist k t h s op = true) :
+    Keeps dist k t h s op := by
+  simp only [keepsB, Bool.and_eq_true, Bool.not_eq_true', List.contains_eq_mem, decide_eq_false_iff_not] at hb
+  obtain ⟨⟨h1, h2⟩, h3⟩ := hb
+  refine ⟨h1, h2, ?_⟩
+  cases op with
+  | add h' inc loc c =>
+    simp only [Bool.and_eq_true, Bool.not_eq_true', beq_eq_false_iff_ne, ne_eq, List.all_eq_true,
+      Bool.or_eq_true, decide_eq_true_eq, Bool.and_eq_false_imp, beq_iff_eq] at h3
+    refine ⟨h3.1, ?_⟩
+    intro x hx hk ht hh
+    rcases h3.2 x hx with h4 | h4
+    · exact absurd hh (h4 ⟨hk, ht⟩)
+    · exact h4
+  | put k' t' c =>
+    simp only [Bool.not_eq_true', Bool.and_eq_false_imp, beq_iff_eq, beq_eq_false_iff_ne] at h3
+    exact fun hh => h3 hh.1 hh.2
+  | early k' t' c =>
+    simp only [Bool.not_eq_true', Bool.and_eq_false_imp, beq_iff_eq, beq_eq_false_iff_ne] at h3
+    exact fun hh => h3 hh.1 hh.2
+  | next c => trivial
+  | setRange r => trivial
+  | age d => trivial
+  | full k' =>
+    cases k' with
+    | none => trivial
+    | some k' => simpa using h3
+
+def fairTraceB (k t h : Nat) : State → List Op → Bool
+  | _, [] => true
+  | s, op :: ops => keepsB dist k t h s op &&
+      (hasKT (step dist s op).2.ret k t || fairTraceB k t h (step dist s op).1 ops)
+
+theorem fairTraceB_sound {k t h : Nat} {s : State} {ops : List Op}
+    (hb : fairTraceB dist k t h s ops = true) : FairTrace dist k t h s ops := by
+  induction ops generalizing s with
+  | nil => trivial
+  | cons op ops ih =>
+    simp only [fairTraceB, Bool.and_eq_true, Bool.or_eq_true] at hb
+    exact ⟨keepsB_sound dist hb.1, hb.2.imp id ih⟩
+
+namespace Example
+/-- distance = key id; 25 keys closer than the target key 30; one holder (0) advertising all 26 every round -/
+def d : Nat → Nat := fun k => k
+def L : List (Nat × Nat) := ((List.range 25).map fun i => (i + 1, 0)) ++ [(30, 0)]
+def pick (ks : List Nat) : List Entry := ks.map fun k => ⟨k, 0, 0, 0⟩
+/-- round 1: the list (the 20 closest are scheduled), then one put per fetch; each put frees a slot and the next
+closest is scheduled: 21 … 25 and then the target 30 -/
+def round1pre : List Op :=
+  [.add 0 L [] (pick ((List.range 20).map (· + 1)))] ++
+  [.put 1 0 (pick [21]), .put 2 0 (pick [22]), .put 3 0 (pick [23]), .put 4 0 (pick [24]),
+   .put 5 0 (pick [25]), .put 6 0 (pick [30])] ++
+  ((List.range 19).map fun i => .put (i + 7) 0 [])
+def round1 : List Op := round1pre ++ [.put 30 0 []]
+/-- rounds 2 and 3: everything is held now, the same list schedules nothing -/
+def round23 : List Op := [.add 0 L L []]
+def rounds : List (List Op) := [round1, round23, round23]
+
+theorem scheduled_round1 : ScheduledIn d 30 0 State.init round1 := by
+  show ∃ o ∈ outs d State.init round1, hasKT o.ret 30 0 = true
+  decide
+
+set_option maxRecDepth 10000 in
+theorem fair_round1 : FairRound d 30 0 0 State.init round1 where
+  advert := ⟨L, [], pick ((List.range 20).map (· + 1)), _, rfl, by decide⟩
+  inRange := fun r hr => by cases hr
+  withinFarthest := fun f hf => by cases hf
+  notInFlight := rfl
+  fair := fairTraceB_sound d (by decide)
+  lastLegal := ⟨round1pre, .put 30 0 [], rfl, rfl, by decide⟩
+  acked := by decide
+
+/-- the three-round run satisfies `FairRounds`; nothing is in flight at any round boundary -/
+theorem fair_rounds : FairRounds d 30 0 0 State.init rounds where
+  nonempty := by decide
+  fair := by
+    intro i hi
+    match i, hi with
+    | 0, _ => exact Or.inr fair_round1
+    | 1, _ => exact Or.inl ⟨0, by decide, by decide, scheduled_round1⟩
+    | 2, _ => exact Or.inl ⟨0, by decide, by decide, scheduled_round1⟩
+
+set_option maxRecDepth 10000 in
+example : (run d State.init rounds.flatten).ogf = [] ∧ (run d State.init rounds.flatten).tbf = [] ∧
+    (outs d State.init rounds.flatten).all (fun o => !o.illegal) = true := by decide
+
+/-- the sixth acknowledgement of round 1 is the call that schedules the target -/
+example : ((outs d State.init round1)[6]?).map (fun o => o.ret.map (·.key)) = some [30] := by decide
+
+/-! Why `FairRound.acked` asks for *every* scheduled fetch to be acknowledged: with the weaker reading (only the
+fetches in flight when the round starts are acknowledged during it) 40 closer versions that the holder keeps
+advertising and that complete early (older versions of held keys, type 1 against held type 0) occupy all 20 slots in
+every round, and the target (key 50) is never scheduled although every other fairness obligation holds. -/
+def stale (ks : List Nat) : List Entry := ks.map fun k => ⟨k, 1, 0, 0⟩
+def Lw : List (Nat × Nat) := ((List.range 40).map fun i => (i + 1, 1)) ++ [(50, 0)]
+def held : List (Nat × Nat) := (List.range 40).map fun i => (i + 1, 0)
+/-- acknowledge keys `a+1 … a+20` (early completion); each frees a slot that goes to key `b+i` -/
+def acksW (a b : Nat) : List Op := (List.range 20).map fun i => .early (a + i + 1) 1 (stale [b + i + 1])
+def w1 : List Op := [.add 0 Lw held (stale ((List.range 20).map (· + 1)))] ++ acksW 0 20
+def w2 : List Op := [.add 0 Lw held []] ++ acksW 20 0
+def w3 : List Op := [.add 0 Lw held []] ++ acksW 0 20
+
+set_option maxRecDepth 20000 in
+/-- every fairness obligation of `FairTrace` holds along the three rounds … -/
+theorem weak_fair_trace : fairTraceB d 50 0 0 State.init (w1 ++ w2 ++ w3) = true := by decide
+
+set_option maxRecDepth 20000 in
+/-- … all choices are legal and no call ever returns the target … -/
+theorem weak_never_scheduled :
+    (outs d State.init (w1 ++ w2 ++ w3)).all (fun o => !o.illegal && !hasKT o.ret 50 0) = true := by decide
+
+set_option maxRecDepth 20000 in
+/-- … which is still queued at the end, behind a full in-flight set, although the fetches in flight at the start
+of rounds 2 and 3 have all been acknowledged by the end of that round. -/
+theorem weak_fairness_starves :
+    hasKTH (run d State.init (w1 ++ w2 ++ w3)).tbf 50 0 0 = true ∧
+    (run d State.init (w1 ++ w2 ++ w3)).ogf.length = maxParallelFetch ∧
+    ((run d State.init w1).ogf.all fun o => !hasKT (run d State.init (w1 ++ w2)).ogf o.key o.ty) = true ∧
+    ((run d State.init (w1 ++ w2)).ogf.all fun o =>
+      !hasKT (run d State.init (w1 ++ w2 ++ w3)).ogf o.key o.ty) = true := by decide
+end Example
 /-! ## non-vacuity: the hypotheses are satisfiable and the operations do schedule -/
 
 /-- two holders, a multi-key list, a legal batch in distance order, then the same version from another holder is
@@ -572,5 +937,14 @@ example : Reachable (fun k => k) (run (fun k => k) State.init [.age 3]) := ⟨[.
 #print axioms SafeNet.Props.C08.new_version_fetched
 #print axioms SafeNet.Props.C08.multi_key_takeup
 #print axioms SafeNet.Props.C08.progress_partial
+#print axioms SafeNet.Props.C08.advert_step
+#print axioms SafeNet.Props.C08.progress_round
+#print axioms SafeNet.Props.C08.progress_first_round
+#print axioms SafeNet.Props.C08.progress
+#print axioms SafeNet.Props.C08.ahead_decreases
+#print axioms SafeNet.Props.C08.Example.fair_rounds
+#print axioms SafeNet.Props.C08.Example.weak_fair_trace
+#print axioms SafeNet.Props.C08.Example.weak_never_scheduled
+#print axioms SafeNet.Props.C08.Example.weak_fairness_starves
 
 end SafeNet.Props.C08
